@@ -1,4 +1,49 @@
-(* placeholder until proofs land *)
-From PV Require Import Model.Feature.
-Theorem C16_placeholder : True. Proof. exact I. Qed.
-Print Assumptions C16_placeholder.
+(* C16  Feature cropping returns the right rows, pads only on request, stays in bounds.
+   Rows are abstract: a feature has n rows and row k is identified by its index k, so a
+   crop result is the list of row indices it consists of. [ranges] are the half-open frame
+   ranges requested from SlidingWindow.crop (C15). Modelled, not proved (asserted on the real
+   objects by the harness): higher-dimensional rows, NumPy ufunc dispatch, align(). Statements only. *)
+From PV Require Import Model.Feature Proofs.WindowP Proofs.FeatureP.
+
+(* without `fixed`: in order, exactly the requested rows that exist -- fewer or none when the
+   focus lies partly or wholly outside the data; no index outside [0, n) is ever produced *)
+Theorem C16_rows_are_selected_and_existing : forall n ranges, 0 <= n ->
+  fcrop_rows n ranges false
+  = flat_map (fun r => filter (inb n) (zrange (fst r) (snd r))) ranges.
+Proof. exact fcrop_rows_spec. Qed.
+Theorem C16_rows_stay_in_bounds : forall n ranges k, 0 <= n ->
+  In k (fcrop_rows n ranges false) -> 0 <= k < n.
+Proof. exact fcrop_rows_in_bounds. Qed.
+(* with `fixed`: exactly as many rows as frames requested, out-of-range indices replaced by the
+   first / last row *)
+Theorem C16_fixed_pads_with_first_and_last : forall n a b, 0 < n -> a <= b ->
+  fcrop_rows n [(a, b)] true = map (clamp n) (zrange a b).
+Proof. exact fcrop_fixed_spec. Qed.
+Theorem C16_fixed_row_count : forall n a b, 0 < n -> a <= b ->
+  Z.of_nat (length (fcrop_rows n [(a, b)] true)) = b - a.
+Proof. exact fcrop_fixed_length. Qed.
+(* return_data=False: same step and duration (by construction), window starts at the first kept frame *)
+Theorem C16_cropped_window_starts_at_first_kept_frame : forall w n f m rows s,
+  fcrop_window w n f m = Some (rows, s) ->
+  let r := crop_range w f m None in
+  rows = zrange (Z.max (fst r) 0) (Z.min (snd r) n) /\ s = w_start w + Z.max (fst r) 0 * w_step w.
+Proof. exact fcrop_window_spec. Qed.
+Theorem C16_iteration_pairs_row_with_position : forall w n,
+  fiter w n = map (fun i => (i, win_get w i)) (zrange 0 n).
+Proof. exact fiter_spec. Qed.
+Theorem C16_extent_spans_all_frames : forall w n, fextent2 w n = range_to_segment2 w 0 n.
+Proof. exact fextent_spec. Qed.
+
+Example C16_nonvacuous :
+  fcrop_rows 10 [(-3, 2)] false = [0; 1] /\ fcrop_rows 10 [(-3, 2)] true = [0; 0; 0; 0; 1] /\
+  fcrop_rows 10 [(8, 12)] true = [8; 9; 9; 9] /\ fcrop_rows 10 [(12, 15)] false = [] /\
+  fcrop_rows 10 [(-6, -2)] false = [].
+Proof. vm_compute. repeat split. Qed.
+
+Print Assumptions C16_rows_are_selected_and_existing.
+Print Assumptions C16_rows_stay_in_bounds.
+Print Assumptions C16_fixed_pads_with_first_and_last.
+Print Assumptions C16_fixed_row_count.
+Print Assumptions C16_cropped_window_starts_at_first_kept_frame.
+Print Assumptions C16_iteration_pairs_row_with_position.
+Print Assumptions C16_extent_spans_all_frames.
